@@ -67,8 +67,12 @@ pub open spec fn row_of(rows: Seq<OverflowTableRow>, act: Seq<usize>, i: int) ->
 impl Stack {
     /// number of overflow rows visible in the current context
     pub open spec fn vis(self) -> int { self.active_depth as int - 16 }
-    /// rows hidden by enclosing contexts: the bottom `full - active` active rows (indices into all_rows)
-    pub open spec fn hidden(self) -> Seq<usize> { self.overflow.active_rows@.take(self.full_depth as int - self.active_depth as int) }
+    /// rows hidden by enclosing contexts: the bottom `full - active` active rows, oldest first, as
+    /// full rows (value, clock, prev link) — the part of the stack a callee can neither see nor
+    /// change (C07)
+    pub open spec fn hidden(self) -> Seq<OverflowTableRow> {
+        Seq::new((self.full_depth as int - self.active_depth as int) as nat, |i: int| self.overflow.all_rows@[self.overflow.active_rows@[i] as int])
+    }
 
     /// bookkeeping invariant that does not mention the trace helper columns
     pub open spec fn core_ok(self) -> bool {
